@@ -192,6 +192,42 @@ def bounded_files(sess: Session):
             cases += 1
             if ILI.is_ili(path) != expect:
                 bad.append({'content': content, 'is_ili': ILI.is_ili(path)})
+        # the index through wn.add as plain, gzip and xz file (small and > 64 KiB): same ilis table
+        import gzip
+        import lzma
+        import sqlite3
+        import shutil as _sh
+        import wn as _wn
+        old = _wn.config.data_directory
+        try:
+            for n_rows in (3, 4000):
+                rows = [['ili', 'status', 'definition']] + [[f'i{k}', 'active', f'definition number {k} of the index']
+                                                            for k in range(n_rows)]
+                plain = os.path.join(tmp, f'cili{n_rows}.tsv')
+                with open(plain, 'w', newline='') as fh:
+                    fh.write(''.join('\t'.join(r) + '\n' for r in rows))
+                dumps = {}
+                for suffix, opener in (('', None), ('.gz', gzip.open), ('.xz', lzma.open)):
+                    path = plain + suffix
+                    if opener:
+                        with open(plain, 'rb') as src_, opener(path, 'wb') as dst_:
+                            _sh.copyfileobj(src_, dst_)
+                    d = os.path.join(tmp, f'db{n_rows}{suffix or ".plain"}')
+                    os.makedirs(d)
+                    _wn.config.data_directory = d
+                    cases += 1
+                    try:
+                        _wn.add(path, progress_handler=None)
+                        con = sqlite3.connect(_wn.config.database_path)
+                        dumps[suffix] = con.execute('SELECT id, status_rowid, definition FROM ilis ORDER BY id').fetchall()
+                        con.close()
+                    except Exception as exc:   # noqa: BLE001
+                        dumps[suffix] = f'{type(exc).__name__}: {exc}'
+                if len(dumps['']) != n_rows or any(v != dumps[''] for v in dumps.values()):
+                    bad.append({'rows': n_rows, 'routes': {k: (len(v) if isinstance(v, list) else v)
+                                                            for k, v in dumps.items()}})
+        finally:
+            _wn.config.data_directory = old
     finally:
         import shutil
         shutil.rmtree(tmp, ignore_errors=True)
